@@ -225,7 +225,7 @@ def run(ctx):
                 triples.append((t1, t2, t3, Position((i % 5) - 2, (i % 7) - 3)))
         transform_laws(ctx, triples)
         big = []
-        for k in range(ctx.pick(400, 60000)):
+        for k in range(ctx.pick(2000, 60000)):
             mag = rng.choice([10, 10**6, 10**18, 2**63, 2**64 + 12345, 10**30])
             ri = lambda: rng.randint(-mag, mag)  # noqa: E731
             ts = [Transform(Position(ri(), ri()), rng.choice(O)) for _ in range(3)]
@@ -233,7 +233,7 @@ def run(ctx):
             ctx.hit('law.bigint')
         transform_laws(ctx, big)
         position_laws(ctx, [tuple(rng.randint(-10**20, 10**20) for _ in range(4)) for _ in range(ctx.pick(100, 40000))])
-        mutation_history_laws(ctx, ctx.pick(150, 5000), rng)
+        mutation_history_laws(ctx, ctx.pick(600, 5000), rng)
         shapes = [(h, w) for h in range(1, 7) for w in range(1, 8)]
         grid_laws(ctx, [s for i, s in enumerate(shapes) if ctx.mine(i)], rng)
         cases = [(y, x, o, a) for y in (-2, 0, 3) for x in (-1, 0, 5) for o in O for a in Action]
